@@ -254,6 +254,8 @@ func c11Configs(tier string, race bool) []c11Cfg {
 			}
 		}
 	}
+	// one very large pool buffer (more than 2^21 samples): paths that split the work of Put across goroutines
+	r = append(r, c11Cfg{T: "int8", C: 1, L: 0, K: 1<<21 + 5, G: 2, M: 1, Bound: 0})
 	if race {
 		addBig(2, 1, 2, 0)
 		// the happens-before monitor: bounded exploration (no state pruning in race mode)
@@ -347,6 +349,7 @@ func c11Explore(c *core.Ctx, cfgs []c11Cfg, race bool, onFail func(cs c11Case, f
 	vs.Global = poolctl.Sched{}
 	va.Hook = func(op string) { schedx.Point(op) } // every atomic operation of the library is a scheduling point
 	defer func() { vs.Global = nil; va.Hook = nil }()
+	baseGoroutines := runtime.NumGoroutine()
 	for _, cfg := range cfgs {
 		start := time.Now()
 		if c.Expired() {
@@ -387,6 +390,17 @@ func c11Explore(c *core.Ctx, cfgs []c11Cfg, race bool, onFail func(cs c11Case, f
 		}
 		if err := e.Explore(); err != nil {
 			c.InternalError("C11 %+v: %v", cfg, err)
+		}
+		// goroutines the library may have started can outlive an execution: give them a moment and look
+		// at the race monitor once more
+		if race && runtime.NumGoroutine() > baseGoroutines {
+			time.Sleep(30 * time.Millisecond)
+			runtime.Gosched()
+			if n := core.RaceErrors(); n > raceBefore {
+				raceBefore = n
+				outcomes["Pool/data-race"]++
+				onFail(c11Case{Cfg: cfg, Choices: nil, Race: true}, []F{core.Failf("Pool/data-race", "%+v: the race detector reported a data race involving a goroutine that outlived the explored executions (started by the library itself)", cfg)})
+			}
 		}
 		execs += e.Executions
 		trans += e.Transitions
